@@ -17,6 +17,7 @@ import os
 import re
 import shutil
 import subprocess
+import time
 
 from nvlib import engine as E
 from nvlib.check import Prop
@@ -101,9 +102,16 @@ def depth(g, p):
     return 1 + max([depth(g, q) for _, q in inh] or [0])
 
 
-def lpc_source(g, P, base):
+def arity(fn):
+    """number of parameters of a generated function: fK has K mod 3 (the same rule is in Build.lean / Spec.lean)"""
+    return (int(re.sub(r"\D", "", fn) or 0) % 3) if fn.startswith("f") else 0
+
+
+def lpc_source(g, P, base, savebin=False):
     fnum = lambda f: int(re.sub(r"\D", "", f) or 0)
-    out = ['#include "/include/vcommon.h"']
+    params = lambda f: ", ".join("int a%d" % i for i in range(arity(f)))
+    largs = lambda f: ", ".join(str(11 + i) for i in range(arity(f)))        # local / :: calls pass exactly the parameters
+    out = (["#pragma save_binary"] if savebin else []) + ['#include "/include/vcommon.h"']
     var_done = False
     n_inh = len(P.inherits())
     seen_inh = 0
@@ -122,21 +130,29 @@ def lpc_source(g, P, base):
             var_done = True
         mods = "" if it[1] == "-" else it[1].replace("_", " ") + " "
         if it[0] == "p":
-            out.append("%sstring %s();" % (mods, it[2]))
+            out.append("%sstring %s(%s);" % (mods, it[2], params(it[2])))
         else:
             calls = []
             for c in it[3]:
                 if c[0] == "L":
-                    calls.append("%s();" % c[1:])
-                elif c[0] == "F":
-                    calls.append("evaluate((: %s :));" % c[1:])
+                    calls.append("%s(%s);" % (c[1:], largs(c[1:])))
+                elif c[0] == "F":       # three arguments whatever the function takes: surplus / missing ones are normalised
+                    calls.append("evaluate((: %s :), 21, 22, 23);" % c[1:])
+                elif c[0] == "G":       # the pointer is evaluated by ANOTHER object (with 21, 22, 23 as well)
+                    calls.append('"/c07/caller"->do_eval((: %s :));' % c[1:])
+                elif c[0] == "H":       # a functional whose body makes the local call
+                    calls.append("evaluate((: %s(%s) :));" % (c[1:], largs(c[1:])))
+                elif c[0] == "I":       # ... evaluated by the other object
+                    calls.append('"/c07/caller"->do_eval((: %s(%s) :));' % (c[1:], largs(c[1:])))
                 else:
                     par, fn = c[1:].split(".")
-                    calls.append("%s::%s();" % ("" if par == "*" else par, fn))
+                    calls.append("%s::%s(%s);" % ("" if par == "*" else par, fn, largs(fn)))
             code = (fnum(P.name) + 1) * 100 + fnum(it[2])
             wset = "w = %d; " % (code + 5000) if has_w else ""
-            out.append('%sstring %s() { VL("run %s:%s " + v_%s); v_%s = %d; %s%s return "%s:%s"; }'
-                       % (mods, it[2], P.name, it[2], P.name, P.name, code, wset, " ".join(calls), P.name, it[2]))
+            alog = ('VL("args" + %s); ' % " + ".join('" " + a%d' % i for i in range(arity(it[2])))) if arity(it[2]) else ""
+            out.append('%sstring %s(%s) { VL("run %s:%s " + v_%s); %sv_%s = %d; %s%s return "%s:%s"; }'
+                       % (mods, it[2], params(it[2]), P.name, it[2], P.name, alog, P.name, code, wset, " ".join(calls),
+                          P.name, it[2]))
     if not var_done:
         out.append(vdecl)
     return "\n".join(out) + "\n"
@@ -206,9 +222,17 @@ def _expr(n, params, site):
         return str(int(n["value"])), False
     if k == "DeclRefExpr":
         nm = (n.get("referencedDecl") or {}).get("name")
+        if isinstance(params, dict) and nm in params:
+            return params[nm], False
         if nm in params:
             return nm, False
         raise TieBroken(site, "reference to %s is outside the grammar" % nm)
+    if k == "MemberExpr" and isinstance(params, dict):
+        base = _strip(n["inner"][0])
+        key = "%s->%s" % ((base.get("referencedDecl") or {}).get("name"), n.get("name"))
+        if key in params:
+            return params[key], False
+        raise TieBroken(site, "member access %s is outside the grammar" % key)
     if k == "UnaryOperator" and n.get("opcode") == "!":
         t, b = _expr(n["inner"][0], params, site)
         return ("(!%s)" % t) if b else ("(%s == 0)" % t), True
@@ -216,8 +240,8 @@ def _expr(n, params, site):
         op = n.get("opcode")
         (a, ab), (b, bb) = _expr(n["inner"][0], params, site), _expr(n["inner"][1], params, site)
         tob = lambda t, isb: t if isb else "(%s != 0)" % t
-        if op in ("&", "|") and not ab and not bb:
-            return "(%s %s %s)" % (a, {"&": "&&&", "|": "|||"}[op], b), False
+        if op in ("&", "|", "^", ">>", "<<", "+", "-") and not ab and not bb:
+            return "(%s %s %s)" % (a, {"&": "&&&", "|": "|||", "^": "^^^", ">>": ">>>", "<<": "<<<", "+": "+", "-": "-"}[op], b), False
         if op in ("==", "!=") and not ab and not bb:
             return "(%s %s %s)" % (a, op, b), True
         if op in ("&&", "||"):
@@ -302,16 +326,123 @@ def gen_function_visible(bdir):
 
 
 
+def _walk(n):
+    yield n
+    for c in n.get("inner", []) or []:
+        if isinstance(c, dict):
+            yield from _walk(c)
+
+
+def gen_apply_hash(bdir):
+    """the cache slot computation of apply_low: `ix = (<hash>) & cache_mask;` and `static int cache_mask = <init>;`"""
+    site = "guard:apply_low-hash"
+    fn = _ast_of_function(bdir, "src/apply.c", "apply_low")
+    mask_init = None
+    for n in _walk(fn):
+        if n.get("kind") == "VarDecl" and n.get("name") == "cache_mask" and n.get("inner"):
+            mask_init, b = _expr(n["inner"][-1], {}, site)
+            if b:
+                raise TieBroken(site, "cache_mask initialiser is a truth value")
+    if mask_init is None:
+        raise TieBroken(site, "`cache_mask` with an initialiser not found in apply_low")
+    rhs = []
+    for n in _walk(fn):
+        if n.get("kind") == "BinaryOperator" and n.get("opcode") == "=":
+            lhs = _strip(n["inner"][0])
+            if lhs.get("kind") == "DeclRefExpr" and (lhs.get("referencedDecl") or {}).get("name") == "ix":
+                rhs.append(n["inner"][1])
+    if len(rhs) != 1:
+        raise TieBroken(site, "expected exactly one assignment to `ix` in apply_low, found %d" % len(rhs))
+    text, b = _expr(rhs[0], {"progp->id_number": "id", "fun": "ptr", "cache_mask": "cacheMaskGen"}, site)
+    if b:
+        raise TieBroken(site, "hash is a truth value")
+    out = "/-- GENERATED from the clang AST of `apply_low` (src/apply.c): `static int cache_mask = ...` -/\n"
+    out += "def cacheMaskGen : Nat := %s\n" % mask_init
+    out += "/-- GENERATED from the clang AST of `apply_low`: the right-hand side of `ix = ...` (id = progp->id_number, ptr = (intptr_t) fun) -/\n"
+    out += "def slotOfGen (id ptr : Nat) : Nat := %s\n" % text
+    return out
+
+
+def gen_find_masks(bdir):
+    """the two flag tests of find_function on the entry the binary search found"""
+    site = "guard:find_function-flags"
+    fn = _ast_of_function(bdir, "src/apply.c", "find_function")
+    masks = []
+    for n in _walk(fn):
+        if n.get("kind") == "IfStmt":
+            c = _strip(n["inner"][0])
+            if c.get("kind") == "BinaryOperator" and c.get("opcode") == "&":
+                l = _strip(c["inner"][0])
+                if l.get("kind") == "DeclRefExpr" and (l.get("referencedDecl") or {}).get("name") == "flags":
+                    t, b = _expr(c["inner"][1], {}, site)
+                    thenk = n["inner"][1].get("kind")
+                    masks.append((t, thenk))
+    if len(masks) != 2 or masks[0][1] != "CompoundStmt" or masks[1][1] != "BreakStmt":
+        raise TieBroken(site, "find_function no longer has `if (flags & M) { if (flags & B) break; return 0; }` (found %s)" % masks)
+    out = "/-- GENERATED from the clang AST of `find_function`: entries with one of these bits are not a local definition -/\n"
+    out += "def findSkipMaskGen : Nat := %s\n" % masks[0][0]
+    out += "/-- GENERATED: with this bit the search goes on in the inherits (`break`), otherwise `return 0` -/\n"
+    out += "def findBreakMaskGen : Nat := %s\n" % masks[1][0]
+    return out
+
+
+def gen_compress_consts(bdir):
+    """the literals of compress_function_tables / find_func_entry: the marker byte, the counter value at which the loop
+    overflows, the counter value it continues with"""
+    site = "guard:compress-literals"
+
+    def lit(n):
+        n = _strip(n)
+        return int(n["value"]) if n.get("kind") == "IntegerLiteral" else None
+
+    markers, overflow, jafter = [], [], []
+    for rel, fname in (("lib/lpc/compiler.c", "compress_function_tables"), ("lib/lpc/program.c", "find_func_entry")):
+        fn = _ast_of_function(bdir, rel, fname)
+        for n in _walk(fn):
+            if n.get("kind") != "BinaryOperator" or n.get("opcode") not in ("=", "=="):
+                continue
+            l, r = _strip(n["inner"][0]), lit(n["inner"][1])
+            if r is None:
+                continue
+            lname = (l.get("referencedDecl") or {}).get("name")
+            if l.get("kind") == "ArraySubscriptExpr" or (n["opcode"] == "==" and l.get("kind") == "BinaryOperator" and l.get("opcode") == "="):
+                markers.append(r)
+            elif lname == "j" and n["opcode"] == "==":
+                overflow.append(r)
+            elif lname == "j" and n["opcode"] == "=" and r != 0:
+                jafter.append(r)
+    # find_func_entry writes `(fidx = prog->function_compressed->index[idx]) == 255`: the left side is an assignment
+    if len(markers) < 4 or len(set(markers)) != 1 or len(overflow) != 1 or len(jafter) != 1:
+        raise TieBroken(site, "marker / overflow literals of the compressed table changed shape: markers=%s overflow=%s j=%s"
+                        % (markers, overflow, jafter))
+    return ("/-- GENERATED from the clang AST of compress_function_tables / find_func_entry: the marker byte of an omitted entry -/\n"
+            "def cmpMarkerGen : Nat := %d\n"
+            "/-- GENERATED: `if (j == K)` — the counter value at which the byte index overflows -/\n"
+            "def cmpOverflowAtGen : Nat := %d\n"
+            "/-- GENERATED: `j = K` in the overflow branch -/\n"
+            "def cmpJAfterOverflowGen : Nat := %d\n" % (markers[0], overflow[0], jafter[0]))
+
+
 class C07(Prop):
     id = "C07"
     title = "calls reach the right function and respect visibility, whatever came before"
-    lean_modules = ["NV.C07.Props", "NV.C07.Witness", "NV.C07.OracleTests"]
+    lean_modules = ["NV.C07.Props", "NV.C07.Witness", "NV.C07.OracleTests", "NV.C07.LemmasCompress", "NV.C07.Tie", "NV.C07.LemmasBinary", "NV.C07.LemmasBuild3", "NV.C07.LemmasBinary2", "NV.C07.LemmasArgs"]
     theorems = ["NV.C07.visibility_table", "NV.C07.visibility_any_flags", "NV.C07.visibility_lifted",
                 "NV.C07.driver_origins_never_refused", "NV.C07.bsearch_correct", "NV.C07.find_function_correct",
                 "NV.C07.find_offsets_are_path_sums", "NV.C07.cache_transparent_step", "NV.C07.cache_transparent",
                 "NV.C07.frame_offsets_correct", "NV.C07.call_other_origin_is_call_other", "NV.C07.call_origin_consumed",
-                "NV.C07.built_alias_flags_agree", "NV.C07.built_flags_agree", "NV.C07.built_inherits_in_world", "NV.C07.inherit_flags_rule_is_spec"]
-    witness_theorems = ["NV.C07.Witness.old_cache_not_transparent", "NV.C07.Witness.origin_stored_once_runs_static"]
+                "NV.C07.built_alias_flags_agree", "NV.C07.built_flags_agree", "NV.C07.built_inherits_in_world", "NV.C07.inherit_flags_rule_is_spec",
+                "NV.C07.find_func_entry_compress", "NV.C07.compressWith_lookup", "NV.C07.fillGo_spec", "NV.C07.inhSearch_spec",
+                "NV.C07.remake_expected", "NV.C07.chaseC_eq_chase",
+                "NV.C07.slotOf_formula", "NV.C07.cacheMask_is_size_minus_one", "NV.C07.slotOf_lt", "NV.C07.find_masks_are_source",
+                "NV.C07.name_masks_are_source", "NV.C07.cmp_marker_is_byte_max",
+                "NV.C07.permute_slot_entry", "NV.C07.permute_ft_mem", "NV.C07.permute_keeps_rest", "NV.C07.sortIdx_isPerm",
+                "NV.C07.resort_slot_entry", "NV.C07.inversePerm_getElem", "NV.C07.built_fio_sorted",
+                "NV.C07.cmp_literals_are_source", "NV.C07.resort_sorted", "NV.C07.sortIdx_pairwise",
+                "NV.C07.setupVariables_length", "NV.C07.setupVariables_get", "NV.C07.setupVariables_is_spec"]
+    witness_theorems = ["NV.C07.Witness.old_cache_not_transparent", "NV.C07.Witness.origin_stored_once_runs_static",
+                        "NV.C07.Witness.old_compress_overflow_branch_loses_entries",
+                        "NV.C07.Witness.temp_instead_of_inverse_misdispatches"]
     consts = [("applyCacheBits", "APPLY_CACHE_BITS"),
               ("nameInherited", "NAME_INHERITED"), ("nameUndefined", "NAME_UNDEFINED"),
               ("namePrototype", "NAME_PROTOTYPE"), ("nameDefByInherit", "NAME_DEF_BY_INHERIT"),
@@ -322,52 +453,79 @@ class C07(Prop):
               ("originDriver", "ORIGIN_DRIVER"), ("originLocal", "ORIGIN_LOCAL"),
               ("originCallOther", "ORIGIN_CALL_OTHER"), ("originSimulEfun", "ORIGIN_SIMUL_EFUN"),
               ("originCallOut", "ORIGIN_CALL_OUT"), ("originEfun", "ORIGIN_EFUN"),
-              ("originFunctionPointer", "ORIGIN_FUNCTION_POINTER"), ("originFunctional", "ORIGIN_FUNCTIONAL")]
+              ("originFunctionPointer", "ORIGIN_FUNCTION_POINTER"), ("originFunctional", "ORIGIN_FUNCTIONAL"),
+              ("nameMaskC", "NAME_MASK"), ("nameNoCodeC", "NAME_NO_CODE"),
+              ("cmpIndexBytes", "sizeof(((compressed_offset_table_t *)0)->index[0])"),
+              ("fnIndexBytes", "sizeof(function_index_t)")]
     const_headers = ["lib/efuns/options.h", "lpc/program.h", "lpc/include/origin.h"]
     quick_n = 1200
     thorough_n = 12000
     search_n = 600
     design_ref = "5/C07"
     technique = ("Lean 4 proof (binary search + inherit recursion vs. reference resolver, cache invariant by induction over "
-                 "histories, offset sums along inherit chains) + translator-generated flag bits/origins/cache size + "
-                 "three-way correspondence real driver / model on the REAL dumped tables / specification on the abstract graph")
+                 "histories, offset sums along inherit chains, round trip of the compressed runtime function table incl. its "
+                 "256-entry overflow branch, permutation invariance of the re-sort after load_binary, argument normalisation) + translator: flag bits / origins / cache size / NAME_MASK / NAME_NO_CODE from a probe, "
+                 "function_visible, the cache hash of apply_low and the flag tests of find_function from the clang AST, with "
+                 "bridging lemmas + three-way correspondence real driver / model-BUILT tables and model-COMPRESSED tables vs the "
+                 "dumped real ones / specification on the abstract graph")
     level_text = ("Lean 4 theorems about an executable model of src/apply.c (find_function, function_visible, the apply cache, "
-                  "apply_low) and src/frame.c (NAME_INHERITED chasing) for all well-formed program tables and all call "
-                  "histories; well-formedness is a decidable predicate evaluated on every real program table dumped by the "
-                  "harness; the compiler's table construction is validated per generated program (translation validation), "
-                  "not proved")
-    level_note = ("trusted: Lean kernel; extract.py; the harness' table dump and bytecode operand decoding; the correspondence is "
-                  "differential (generated inheritance graphs and call histories only); copy_functions / overload_function / "
-                  "compress_function_tables are not modelled")
+                  "apply_low, the call_origin protocol), src/frame.c (NAME_INHERITED chasing, setup_variables), sort_function_table of "
+                  "lib/lpc/program/binaries.c (dispatch by slot unchanged by every permutation, table sorted) and compress_function_tables / "
+                  "FIND_FUNC_ENTRY / find_func_entry (every slot read back from the compressed table is the uncompressed entry; "
+                  "frames chased through compressed tables equal frames chased through uncompressed ones) for all program tables "
+                  "satisfying decidable well-formedness predicates and all call histories; the predicates (wfFind, wfSlots, cmpWF) "
+                  "are evaluated on every real / model-built table; the compiler's table construction is modelled and compared per "
+                  "generated program (translation validation) with the alias-flag and inherit-order theorems proved for all programs")
+    level_note = ("trusted: Lean kernel; extract.py and the AST translators in props/c07.py; the harness' table dump (tbl through "
+                  "FIND_FUNC_ENTRY, cmp = raw compressed_offset_table_t + stored entries) and bytecode operand decoding; the "
+                  "correspondence is differential (generated inheritance graphs and call histories, wide programs around the "
+                  "255-entry limit of the compressed index only as boundary cases); 16-bit truncation of function indices is not "
+                  "modelled (tables have < 65536 slots)")
     rule = ("cases = corpus + boundary list + seeded random inheritance graphs (2-7 programs, depth <= 4, up to 3 inherits per "
             "program with private/static/public/protected modifiers, overriding, prototypes before and after inherits, "
-            "`::f` / `A::f` / local / function-pointer calls in bodies) x 12-45 calls by name from call_other (shared and "
-            "copied name string), driver apply, call_out-origin apply and real call_out, with refused and non-existent names, "
-            "call_other on ARRAY targets (objects, file names, non-objects; the function at every position) and on FILE NAME "
-            "targets (loaded / loaded by the call, running create() in between / no such file), heart_beat ticks, "
-            "cache clears and forced slot collisions; every case is run on the real driver, by the model on the dumped real "
-            "tables and by the specification on the abstract graph; a case is non-trivial when at least one call ran a body")
+            "`::f` / `A::f` / local calls, function pointers and functionals evaluated in place or by ANOTHER object in bodies) x "
+            "12-45 calls by name from call_other (shared and copied name string), driver apply, call_out-origin apply and real "
+            "call_out, with refused and non-existent names, call_other on ARRAY targets (objects, file names, non-objects; the "
+            "function at every position) and on FILE NAME targets (loaded / loaded by the call, running create() in between / no "
+            "such file), heart_beat ticks, cache clears and forced slot collisions; one case in five saves its programs with "
+            "#pragma save_binary and RELOADS everything from the binaries in the middle of the history with the function-name strings "
+            "re-created in a random address order; boundary: wide programs around the 255-entry limit of the compressed table, "
+            "binary reloads under rotations / a reversal / a 3-cycle / twice; every case is run on the real driver, by the model "
+            "(tables BUILT and COMPRESSED by the model must equal the dumped real ones, before and after a reload) and by the "
+            "specification on the abstract graph; a case is non-trivial when at least one call ran a body")
     not_covered = ["the construction of the function tables (copy_functions, overload_function, define_new_function, epilog, "
                    "copy_and_sort_function_table, operands of local / :: / function-pointer calls) IS modelled (NV/C07/Build.lean) and "
                    "the model-built table must equal the real dumped table of every generated program, but `built_table_wf` and the "
                    "full `built_flags_are_spec_visibility` are NOT proved for all programs: WF and the per-slot agreement with the "
                    "specification are evaluated on every dumped table instead; proved are the epilog alias theorem and the "
                    "one-level flag-inheritance table",
-                   "compress_function_tables / FIND_FUNC_ENTRY are validated as a round trip (model builds uncompressed entries, the "
-                   "harness dumps through FIND_FUNC_ENTRY), not modelled",
-                   "simul_efun dispatch, efun function pointers and function pointers evaluated by another object "
-                   "(ORIGIN_FUNCTIONAL, bind()) are not exercised; the heart_beat origin is (call hb)",
-                   "varargs / argument count normalisation (setup_variables) is outside the model",
-                   "program deallocation and reuse of a program_t address while a cache entry still names it",
-                   "programs loaded from saved binaries (see C17)"]
+                   "compress_function_tables / FIND_FUNC_ENTRY ARE modelled and the round trip is proved under the decidable cmpWF "
+                   "(inherit offsets sorted, an omitted slot names the last inherit not beyond it); that every table the construction "
+                   "model builds satisfies cmpWF is evaluated per program (`!cmpwf` marker in the compared cmp line), not proved; "
+                   "copy_and_sort_function_table's renumbering INSIDE the compressed layout and the readers in binaries.c / debug.c "
+                   "are covered only through the dumped result",
+                   "simul_efun dispatch, efun / simul_efun function pointers, bind() and pointer arguments are not exercised; local "
+                   "function pointers and functionals evaluated by another object, and the heart_beat origin, are",
+                   "argument count normalisation (setup_variables: too few / exact / too many arguments from call_other, applies, "
+                   "function pointers) IS modelled and proved equal to the specification; true varargs functions "
+                   "(setup_varargs_variables, `mixed *rest...`), argument TYPES and pointer arguments (merge_arg_lists) are not",
+                   "program deallocation and reuse of a program_t address while a cache entry still names it (the id test of the "
+                   "hit path): cannot be exercised under ASan, whose quarantine never hands the address out again",
+                   "find_function_by_name / ffbn_recurse / function_exists (second copy of the search)",
+                   "programs loaded from saved binaries: sort_function_table IS modelled (permuteProgram / resortProgram) with "
+                   "`permute_slot_entry` / `resort_slot_entry` proved for every permutation, and reloaded programs are compared "
+                   "(table, compressed table, dispatch) with a fresh build under the new name order; NOT covered: the other "
+                   "fix-ups of load_binary (string switch tables, line numbers, argument types, inherit relinking by name), "
+                   "a reload in another driver process, out-of-date / damaged binaries (C17)"]
 
     def gen_extra(self, ctx, bdir):
-        return gen_function_visible(bdir)
+        return (gen_function_visible(bdir) + "\n" + gen_apply_hash(bdir) + "\n" + gen_find_masks(bdir) + "\n"
+                + gen_compress_consts(bdir))
 
     # ---- implementation side ---------------------------------------------------------------
     def prepare(self, ctx):
         self.exe = E.compile_harness("c07", [os.path.join(E.VERIF, "harness/c07/c07.c")])
-        self.conf = E.make_mudlib(ctx.rundir)
+        self.conf = E.make_mudlib(ctx.rundir, master="/c07/master.c", extra_conf="SaveBinaryDir /c07bin\n")
         self.mud = os.path.join(ctx.rundir, "mudlib")
         self.last_impl = {}
 
@@ -382,11 +540,18 @@ class C07(Prop):
             path = os.path.join(self.mud, "c07", "g", d)
             if os.path.exists(path):
                 shutil.rmtree(path)
+            # binaries saved by an earlier run of a case with this id must never be loaded
+            shutil.rmtree(os.path.join(self.mud, "c07bin", "c07", "g", d), ignore_errors=True)
             os.makedirs(path)
             g, order = parse_graph(c.lines)
+            savebin = any(l.strip() == "savebin" for l in c.lines)
+            old = time.time() - 7200
             for n in order:
-                with open(os.path.join(path, n + ".c"), "w") as f:
-                    f.write(lpc_source(g, g[n], base))
+                fn = os.path.join(path, n + ".c")
+                with open(fn, "w") as f:
+                    f.write(lpc_source(g, g[n], base, savebin))
+                if savebin:
+                    os.utime(fn, (old, old))        # well older than any binary written for it
             lines = []
             for l in c.lines:
                 t = l.split()
@@ -402,6 +567,7 @@ class C07(Prop):
         res = E.run_harness(self.exe, self.conf, hc, ctx.rundir)
         for c in cases:
             shutil.rmtree(os.path.join(self.mud, "c07", "g", self._dir_of(c.id)), ignore_errors=True)
+            shutil.rmtree(os.path.join(self.mud, "c07bin", "c07", "g", self._dir_of(c.id)), ignore_errors=True)
         res = {k: self.canon(v) for k, v in res.items()}
         self.last_impl.update(res)
         return res
@@ -421,7 +587,7 @@ class C07(Prop):
             impl = self.last_impl.get(c.id)
             if impl is None:
                 impl = self.run_impl(ctx, [c]).get(c.id, [])
-            dumped = [l for l in impl if l.split(" ", 1)[0] in ("nm", "tbl", "obj") or re.match(r"ld \S+ !fail$", l)]
+            dumped = [l for l in impl if l.split(" ", 1)[0] in ("nm", "tbl", "cmp", "obj", "reload") or re.match(r"ld \S+ !fail$", l)]
             ms.append(E.Case(c.id, c.lines + ["--"] + dumped))
         return E.nvdrive(self.id, "model", E.cases_text(ms))
 
@@ -514,7 +680,43 @@ class C07(Prop):
                 seq.append("call %s o1 f%d" % ("co" if (i + rnd) % 2 else "drv", i))
                 seq.append("call %s o0 f%d" % ("drv" if (i + rnd) % 2 else "co", i))
         mk("many-names-collisions", [big0, big1, nm, "ld o0 p0", "ld o1 p1", "dump o0 o1"] + seq)
+        # the compressed function table around its 255-entry limit: a wide base inherited twice (directly and through p1)
+        # leaves N stored overload entries in p2; N > 255 takes the overflow branch of compress_function_tables
+        # (repaired defect: corpus/C07/compress-overflow-260.case)
+        for N in (254, 255, 256, 257, 300):
+            mk("compress-wide-%d" % N, self.wide_case(N))
+        # programs saved with #pragma save_binary and RELOADED from the binary while their function names live at other
+        # addresses: sort_function_table re-sorts the table; rotations (long cycles), a reversal, a 3-cycle, the identity
+        fns = ["f%d" % i for i in range(6)]
+        bing = ["savebin",
+                "prog p0 " + " ".join("d:%s:%s:-" % ("static" if i == 3 else "-", f) for i, f in enumerate(fns))
+                + " d:-:f6:" + "+".join("L" + f for f in fns) + " d:static:heart_beat:Lf2+Ff4",
+                "prog p1 i:-:p0 p:-:f9 d:-:f2:S*.f2+Lf0 d:private:f4:- d:-:f7:Lf1+Ff3+Lf2+Lf4+Lf6",
+                "prog p2 i:-:p0 i:private:p1 d:-:f8:Lf7+Lf2+Sp0.f4 d:-:f0:S*.f0"]
+        allf = fns + ["f6", "f7", "f8", "f9", "heart_beat", "nosuch"]
+        calls = ["call co o0 f6", "call co o1 f7", "call drv o2 f8", "call co o2 f4", "call co o2 f0", "call hb o0 heart_beat",
+                 "call hb o2 heart_beat", "call co o1 f3", "call drv o1 f3", "call co o2 nosuch", "call cos =p1 f7"]
+        lds = ["ld o0 p0", "ld o1 p1", "ld o2 p2", "dump o0 o1 o2"]
+        perms = {"rot1": allf[1:] + allf[:1], "rot3": allf[3:] + allf[:3], "rev": allf[::-1],
+                 "cyc3": [allf[1], allf[2], allf[0]] + allf[3:], "ident": list(allf)}
+        for pn, order in perms.items():
+            mk("binary-reload-" + pn, bing + ["names " + " ".join(allf)] + lds + calls[:4]
+               + ["reload " + " ".join(order)] + lds + calls)
+        mk("binary-reload-twice", bing + ["names " + " ".join(allf)] + lds + calls[:3] + ["reload " + " ".join(perms["rot1"])]
+           + lds + calls[:5] + ["reload " + " ".join(perms["rot3"])] + lds + calls)
         return B
+
+    @staticmethod
+    def wide_case(N, proto_first=True):
+        p0 = "prog p0 " + " ".join("d:%s:f%d:-" % ("static" if i % 7 == 3 else "-", i) for i in range(N))
+        p1 = "prog p1 i:-:p0 d:-:g0:Lf1 v:private"
+        p2 = "prog p2 %si:-:p0 i:-:p1 d:-:h0:Lf0 d:-:h1:Lf%d+Lg0 d:-:h2:Ff%d+S*.f2" % ("p:-:h0 " if proto_first else "", N - 2, N - 1)
+        p3 = "prog p3 i:-:p2 d:-:k0:Lh1+Lf%d" % (N // 2)
+        names = "names " + " ".join("f%d" % i for i in range(N)) + " g0 h0 h1 h2 k0 nosuch"
+        seq = ["ld o2 p2", "ld o3 p3", "dump o2 o3", "call co o2 f0", "call co o2 h0", "call drv o2 h1", "call co o2 h2",
+               "call co o3 k0", "call co o3 f3", "call drv o3 f3", "call co o2 f%d" % (N - 1), "call cot o3 f%d" % (N - 1),
+               "call co o3 nosuch", "call co o3 g0"]
+        return [p0, p1, p2, p3, names] + seq
 
     def gen_graph(self, rng):
         n = rng.weighted([(2, 2), (3, 4), (4, 5), (5, 4), (6, 2), (7, 1)])
@@ -576,7 +778,7 @@ class C07(Prop):
                     lower = [f for f in fpool if fnum(f) < fnum(fn) and f in vis and "hidden" not in vis[f][0]
                              and (vis[f][1] or rng.chance(1, 6))]
                     if lower:
-                        calls.append(("L" if rng.chance(3, 4) else "F") + rng.choice(lower))
+                        calls.append(rng.weighted([("L", 12), ("F", 3), ("G", 2), ("H", 1), ("I", 2)]) + rng.choice(lower))
                 P.items.append(("d", rng.weighted([("-", 6), ("static", 3), ("private", 2), ("protected", 1), ("public", 1)]), fn, calls))
                 vis = visible_names(g, P.name)
             if rng.chance(1, 8):
@@ -603,7 +805,20 @@ class C07(Prop):
             objs.append(oid)
             lines.append("ld %s %s" % (oid, p))
         lines.append("dump " + " ".join(objs))
+        # one case in five saves its programs as binaries and reloads everything in the middle of the history, with the
+        # function names re-created in a random address order
+        savebin = rng.chance(1, 5)
+        reload_at = -1
+        if savebin:
+            lines.insert(0, "savebin")
         last = None
+
+        def call_args(o):
+            # 0 to 4 arguments, whatever the function takes (fK has K mod 3 parameters): too few, exact, too many
+            if o in ("rco", "hb") or rng.chance(2, 5):
+                return ""
+            return " " + ",".join(str(rng.range(1, 9) * 100 + i) for i in range(rng.range(1, 4)))
+
         def target_elem():
             k = rng.weighted([("oid", 6), ("path", 4), ("nofile", 1), ("int", 1)])
             if k == "oid":
@@ -611,7 +826,18 @@ class C07(Prop):
             if k == "path":
                 return "=" + rng.choice(order)       # the named object: loaded already, or loaded by this call
             return "=nofile" if k == "nofile" else "0"
-        for _ in range(rng.range(12, 45)):
+        total = rng.range(12, 45)
+        if savebin:
+            reload_at = rng.range(2, max(3, total // 2))
+        for step in range(total):
+            if step == reload_at:
+                allnames = fpool + extra + [x for x in ("heart_beat", "create") if x not in fpool]
+                lines.append("reload " + " ".join(rng.shuffle(allnames)))
+                for i, oid in enumerate(objs):
+                    lines.append([l for l in lines if l.startswith("ld %s " % oid)][0])
+                lines.append("dump " + " ".join(objs))
+                last = None
+                continue
             k = rng.weighted([("call", 30), ("cold", 2), ("evict", 3), ("again", 8), ("coa", 5), ("cos", 4)])
             if k in ("coa", "cos"):
                 fn = rng.choice(fpool) if rng.chance(9, 10) else rng.choice(extra)
@@ -627,11 +853,11 @@ class C07(Prop):
                 o = rng.weighted([("co", 7), ("com", 1), ("drv", 5), ("cot", 2), ("rco", 1), ("hb", 1)])
                 if o == "hb":
                     last = (last[0], "heart_beat")
-                lines.append("call %s %s %s" % (o, last[0], last[1]))
+                lines.append("call %s %s %s%s" % (o, last[0], last[1], call_args(o)))
             elif k == "again":
                 # same object and name from another origin: the cache is hit with a different kind of caller
                 o = rng.weighted([("co", 4), ("drv", 4), ("cot", 2), ("rco", 1), ("com", 1)])
-                lines.append("call %s %s %s" % (o, last[0], last[1]))
+                lines.append("call %s %s %s%s" % (o, last[0], last[1], call_args(o)))
             elif k == "cold":
                 lines.append("cold")
             else:
@@ -642,7 +868,7 @@ class C07(Prop):
         return [self.gen_case(rng, "g%d" % i) for i in range(n)]
 
     def histogram(self, cases, impl):
-        h = {"calls": 0, "bodies_run": 0, "refused_or_absent": 0, "errors": 0, "load_failed": 0, "cold": 0, "evict": 0,
+        h = {"savebin_cases": 0, "reloads": 0, "programs_loaded_from_binaries": 0, "calls": 0, "bodies_run": 0, "refused_or_absent": 0, "errors": 0, "load_failed": 0, "cold": 0, "evict": 0,
              "by_origin": {}, "programs": 0, "max_depth": 0, "multi_inherit_programs": 0, "alias_slots": 0,
              "super_calls": 0, "local_calls": 0, "fp_calls": 0, "prototypes": 0, "inherit_mods": {}}
         for c in cases:
@@ -680,6 +906,10 @@ class C07(Prop):
                 t = l.split()
                 if not t:
                     continue
+                if t[0] == "savebin":
+                    h["savebin_cases"] += 1
+                elif t[0] == "reload":
+                    h["reloads"] += 1
                 if t[0] == "call":
                     h["calls"] += 1
                     h["by_origin"][t[1]] = h["by_origin"].get(t[1], 0) + 1
@@ -697,10 +927,15 @@ class C07(Prop):
                             h["prototypes"] += 1
                         elif f[0] == "d" and f[3] != "-":
                             for x in f[3].split("+"):
-                                h[{"S": "super_calls", "L": "local_calls", "F": "fp_calls"}[x[0]]] += 1
+                                h[{"S": "super_calls", "L": "local_calls", "F": "fp_calls", "G": "fp_calls_evaluated_by_other_object",
+                                   "H": "functional_calls", "I": "functional_calls_evaluated_by_other_object"}[x[0]]] = \
+                                    h.get({"S": "super_calls", "L": "local_calls", "F": "fp_calls", "G": "fp_calls_evaluated_by_other_object",
+                                           "H": "functional_calls", "I": "functional_calls_evaluated_by_other_object"}[x[0]], 0) + 1
                     if ni > 1:
                         h["multi_inherit_programs"] += 1
             for l in impl.get(c.id, []):
+                if l.startswith("binloads "):
+                    h["programs_loaded_from_binaries"] += int(l.split()[1])
                 if l.startswith("run "):
                     h["bodies_run"] += 1
                 elif l == "ret !no":
